@@ -58,6 +58,18 @@ func feStmts(list []ast.Stmt) []string {
 			out = append(out, h+" {")
 			out = append(out, feStmts(st.Body.List)...)
 			out = append(out, "}")
+		case *ast.RangeStmt:
+			h := "for "
+			if st.Key != nil {
+				h += text(st.Key)
+				if st.Value != nil {
+					h += ", " + text(st.Value)
+				}
+				h += " " + st.Tok.String() + " "
+			}
+			out = append(out, h+"range "+text(st.X)+" {")
+			out = append(out, feStmts(st.Body.List)...)
+			out = append(out, "}")
 		case *ast.IfStmt:
 			h := "if "
 			if st.Init != nil {
@@ -86,6 +98,27 @@ func feBody(fd *ast.FuncDecl) []string {
 		return nil
 	}
 	return feStmts(fd.Body.List)
+}
+
+// feOrder lists the given identifiers in the order of their first occurrence in fd's body.
+func feOrder(fd *ast.FuncDecl, names ...string) []string {
+	if fd == nil || fd.Body == nil {
+		return nil
+	}
+	want := map[string]bool{}
+	for _, n := range names {
+		want[n] = true
+	}
+	var out []string
+	seen := map[string]bool{}
+	ast.Inspect(fd.Body, func(n ast.Node) bool {
+		if id, ok := n.(*ast.Ident); ok && want[id.Name] && !seen[id.Name] {
+			seen[id.Name] = true
+			out = append(out, id.Name)
+		}
+		return true
+	})
+	return out
 }
 
 func factsFrontend() {
@@ -119,4 +152,43 @@ func factsFrontend() {
 	emitList("shouldCacheBody", "pkg/queryfrontend/roundtrip.go shouldCache", feBody(fn(parse("pkg/queryfrontend/roundtrip.go"), "", "shouldCache")))
 	emitList("unsafeTenantBody", "internal/cortex/tenant/resolver.go containsUnsafePathSegments",
 		feBody(fn(parse("internal/cortex/tenant/resolver.go"), "", "containsUnsafePathSegments")))
+
+	// ---- C42
+	qr := parse("internal/cortex/querier/queryrange/query_range.go")
+	emitList("minTimeBody", "internal/cortex/querier/queryrange/query_range.go PrometheusResponse.minTime", feBody(fn(qr, "PrometheusResponse", "minTime")))
+	emitList("sliceSamplesBody", "internal/cortex/querier/queryrange/query_range.go SliceSamples", feBody(fn(qr, "", "SliceSamples")))
+	rc := parse("internal/cortex/querier/queryrange/results_cache.go")
+	emitList("partitionBody", "internal/cortex/querier/queryrange/results_cache.go resultsCache.partition", feBody(fn(rc, "resultsCache", "partition")))
+	emitList("atStepBody", "internal/cortex/querier/queryrange/results_cache.go isTimestampAtStep", feBody(fn(rc, "", "isTimestampAtStep")))
+	var loop []string
+	for _, l := range feBody(fn(rc, "resultsCache", "handleHit")) {
+		if strings.Contains(l, "accumulator.End") {
+			loop = append(loop, l)
+		}
+	}
+	emitList("extentMergeConds", "internal/cortex/querier/queryrange/results_cache.go handleHit: statements of the extent merge loop that mention accumulator.End", loop)
+	rt := parse("pkg/queryfrontend/roundtrip.go")
+	emitList("rangeMiddlewareOrder", "pkg/queryfrontend/roundtrip.go newQueryRangeTripperware: order in which the middlewares are appended",
+		feOrder(fn(rt, "", "newQueryRangeTripperware"), "NewLimitsMiddleware", "StepAlignMiddleware", "DownsampledMiddleware", "SplitByIntervalMiddleware", "PromQLShardingMiddleware", "NewResultsCacheMiddleware", "NewRetryMiddleware"))
+	steps := "unknown"
+	if ck != nil {
+		for _, d := range ck.Decls {
+			if gd, ok := d.(*ast.GenDecl); ok {
+				for _, sp := range gd.Specs {
+					if vs, ok := sp.(*ast.ValueSpec); ok && len(vs.Names) == 1 && vs.Names[0].Name == "commonQuerySteps" && len(vs.Values) == 1 {
+						steps = text(vs.Values[0])
+					}
+				}
+			}
+		}
+	}
+	emitStr("commonQueryStepsDecl", "pkg/queryfrontend/cache.go commonQuerySteps", steps)
+	emitList("lowerStepCandidatesBody", "pkg/queryfrontend/cache.go lowerStepCacheCandidates", feBody(fn(ck, "", "lowerStepCacheCandidates")))
+	var alt []string
+	for _, l := range feBody(fn(ck, "thanosCacheKeyGenerator", "GenerateCacheKeyAlternatives")) {
+		if strings.Contains(l, "step") || strings.Contains(l, "Step") {
+			alt = append(alt, l)
+		}
+	}
+	emitList("altKeysStepLines", "pkg/queryfrontend/cache.go GenerateCacheKeyAlternatives: statements mentioning the step", alt)
 }
